@@ -7,7 +7,7 @@ from sa.loader import AnalysisError, norm_text
 VIOLATION_KINDS = ("const", "operator", "binding", "structure")
 
 
-def audit(project, chk, rule, qualname, ref_src, entry, policy, what, inline=True, exclude=(), call_map=None, code_expr=None, pick=None):
+def audit(project, chk, rule, qualname, ref_src, entry, policy, what, inline=True, exclude=(), call_map=None, code_expr=None, pick=None, alternatives=None):
     """Compare the closed form of a package function with the reference formula; record verdicts.
     Returns the number of constants / nodes compared (for floors)."""
     fi = project.func(qualname)
@@ -28,7 +28,17 @@ def audit(project, chk, rule, qualname, ref_src, entry, policy, what, inline=Tru
     except Unsupported as e:
         raise AnalysisError(f"ANALYSIS-INCONCLUSIVE {fi.short}: formula not readable ({e})")
     ms = compare(code, ref, policy)
+    for alt_entry in (alternatives or []):
+        if not ms:
+            break
+        ref2 = reference(ref_src, alt_entry, call_map=call_map)
+        ms2 = compare(code, ref2, policy)
+        if not ms2 or (not any(m.kind == "shape" for m in ms2) and (any(m.kind == "shape" for m in ms) or len(ms2) < len(ms))):
+            ms, ref = ms2, ref2
     loc = project.loc(fi.module, fi.node)
+    if any(m.kind == "shape" for m in ms) and chk.findings:
+        chk.note(f"{fi.short}: not aligned with the definition of {what}; a violation in one of its helpers was already reported, so this composite is not judged")
+        return 0, 0
     if any(m.kind == "shape" for m in ms):
         sh = [m for m in ms if m.kind == "shape"][0]
         raise AnalysisError(f"ANALYSIS-INCONCLUSIVE {loc} {fi.short}: the code's formula cannot be aligned with the definition of {what} "
